@@ -775,6 +775,35 @@ class PEval:
             if cand is not None and thir.body_of(cand):
                 return self.call_fn(cand, args, depth + 1)
         local = self.lib.fn(path)
+        if (local is None or not thir.body_of(local)) and args and not path.startswith("<"):
+            # a trait method called on `Self` / a generic: dispatch on the abstract receiver's type
+            recv = deref(args[0])
+            if isinstance(recv, (Struct, Enum)) and "::" in path and not recv.adt.startswith("#"):
+                tr, meth = path.rsplit("::", 1)
+                cand = self.lib.fn("<%s as %s>::%s" % (recv.adt, tr, meth))
+                if cand is not None and thir.body_of(cand):
+                    local, path = cand, cand["path"]
+            if local is None and "::" in path and not isinstance(recv, (Struct, Enum)):
+                # ... or on the kind of the abstract value (generic `impl Trait` parameters)
+                tr, meth = path.rsplit("::", 1)
+                kinds = ["&str", "alloc::string::String"] if isinstance(recv, str) else \
+                        (["alloc::vec::Vec<u8>", "&[u8]"] if isinstance(recv, list) and all(isinstance(x, int) for x in recv) else
+                         (["bool"] if isinstance(recv, bool) else (["char", "usize", "u8"] if isinstance(recv, int) else [])))
+                for ty in kinds:
+                    cand = self.lib.fn("<%s as %s>::%s" % (ty, tr, meth))
+                    if cand is not None and thir.body_of(cand):
+                        local, path = cand, cand["path"]
+                        break
+            if local is None and node is not None and node.get("args") and "::" in path:
+                # ... or on the static type of the receiver expression (impls for Vec<u8>, &str, ...)
+                tr, meth = path.rsplit("::", 1)
+                t0 = node["args"][0].get("t")
+                if t0 is not None:
+                    for ty in (self.lib.ty_str(t0), self.lib.ty_str(self.lib.strip_refs(t0)), "&" + self.lib.ty_str(self.lib.strip_refs(t0))):
+                        cand = self.lib.fn("<%s as %s>::%s" % (ty, tr, meth))
+                        if cand is not None and thir.body_of(cand):
+                            local, path = cand, cand["path"]
+                            break
         if local is not None and args and isinstance(deref(args[0]), (Iter, PyMap, PySet)) and (" as " in path):
             local = None  # a trait method on one of the evaluator's own container objects: use the std model
         rargs = args
@@ -873,6 +902,13 @@ class PEval:
                 else:
                     return self.unknown("format! placeholder with options")
             return "".join(out)
+        if path.startswith("core::iter::sources::"):
+            if fname == "once" and len(args) == 1:
+                return Iter([a0])
+            if fname == "empty" and not args:
+                return Iter([])
+            if fname in ("repeat_n",) and len(args) == 2 and isinstance(args[1], int):
+                return Iter([a0] * args[1])
         if fname in ("call", "call_mut", "call_once") and "ops::function" in path and len(args) == 2:
             tup = args[1]
             return self.apply(a0, list(tup) if isinstance(tup, tuple) and tup is not UNIT else [], depth)
@@ -924,6 +960,16 @@ class PEval:
         if isinstance(a0, list) and fname in ("push", "push_back") and len(args) == 2:
             a0.append(args[1])
             return UNIT
+        if isinstance(a0, list) and fname in ("extend_from_slice", "append") and len(args) == 2:
+            other = args[1].rest() if isinstance(args[1], Iter) else args[1]
+            if isinstance(other, str):
+                other = list(other.encode("utf-8"))
+            if isinstance(other, list):
+                a0.extend(other)
+                if fname == "append":
+                    del other[:]
+                return UNIT
+            return self.unknown("%s with unknown slice" % fname)
         if isinstance(a0, list) and fname == "extend" and len(args) == 2:
             other = args[1].rest() if isinstance(args[1], Iter) else args[1]
             if isinstance(other, list):
@@ -938,6 +984,14 @@ class PEval:
         if isinstance(a0, list) and fname == "clear":
             del a0[:]
             return UNIT
+        if isinstance(a0, Struct) and a0.adt.startswith("core::ops::range::Range") and isinstance(a0.fields.get("start"), int) and isinstance(a0.fields.get("end"), int):
+            rng = list(range(a0.fields["start"], a0.fields["end"]))
+            if fname in ITER_CALLS or fname in ("rev", "map", "for_each", "filter", "any", "all", "fold", "collect", "count", "len", "next", "is_empty", "contains"):
+                if fname in ITER_CALLS:
+                    return Iter(rng)
+                if fname == "contains" and len(args) == 2 and isinstance(args[1], int):
+                    return a0.fields["start"] <= args[1] < a0.fields["end"]
+                return self.call_named(path, fname, [rng] + args[1:], node, depth)
         if fname in ITER_CALLS and len(args) == 1:
             if isinstance(a0, list):
                 return Iter(a0)
@@ -1087,6 +1141,18 @@ class PEval:
                 return inner if a0.variant == "Some" else NONE
             if fname in ("or", ) and len(args) == 2:
                 return a0 if a0.variant == "Some" else args[1]
+            if fname == "or_else" and len(args) == 2:
+                return a0 if a0.variant == "Some" else self.apply(args[1], [], depth)
+            if fname == "and" and len(args) == 2:
+                return args[1] if a0.variant == "Some" else NONE
+            if fname == "xor" and len(args) == 2 and isinstance(args[1], Enum):
+                return a0 if (a0.variant == "Some") != (args[1].variant == "Some") and a0.variant == "Some" else (args[1] if (a0.variant == "Some") != (args[1].variant == "Some") else NONE)
+            if fname == "zip" and len(args) == 2 and isinstance(args[1], Enum) and args[1].adt == OPTION:
+                return some((inner, args[1].fields.get("0", UNKNOWN))) if a0.variant == "Some" and args[1].variant == "Some" else NONE
+            if fname in ("ok_or", "ok_or_else") and len(args) == 2:
+                return ok(inner) if a0.variant == "Some" else err(args[1] if fname == "ok_or" else self.apply(args[1], [], depth))
+            if fname in ("as_mut", "as_ref", "as_deref", "as_deref_mut", "copied", "cloned"):
+                return a0
         if isinstance(a0, Enum) and a0.adt == ORDERING:
             if fname == "is_gt":
                 return a0.variant == "Greater"
@@ -1112,6 +1178,10 @@ class PEval:
                 return len(a0) == 0
             if fname in ("len", "count"):
                 return len(a0)
+            if fname == "sum" and all(isinstance(x, int) and not isinstance(x, bool) for x in a0):
+                return sum(a0)
+            if fname in ("max", "min") and len(args) == 1 and a0 and all(isinstance(x, int) and not isinstance(x, bool) for x in a0):
+                return some(max(a0) if fname == "max" else min(a0))
             if fname in ("first", "next", "first_mut"):
                 return some(a0[0]) if a0 else NONE
             if fname in ("last", "last_mut"):
@@ -1292,6 +1362,20 @@ class PEval:
                 return UNIT
             if fname == "clear" and isinstance(r0, Ref):
                 r0.set("")
+                return UNIT
+            if fname == "pop" and isinstance(r0, Ref) and len(args) == 1:
+                if a0 == "":
+                    return NONE
+                r0.set(a0[:-1])
+                return some(ord(a0[-1]))
+            if fname == "truncate" and isinstance(r0, Ref) and len(args) == 2 and isinstance(args[1], int) and a0.isascii():
+                r0.set(a0[:args[1]])
+                return UNIT
+            if fname == "insert_str" and isinstance(r0, Ref) and len(args) == 3 and isinstance(args[1], int) and isinstance(args[2], str) and a0.isascii():
+                r0.set(a0[:args[1]] + args[2] + a0[args[1]:])
+                return UNIT
+            if fname == "insert" and isinstance(r0, Ref) and len(args) == 3 and isinstance(args[1], int) and isinstance(args[2], int) and a0.isascii():
+                r0.set(a0[:args[1]] + chr(args[2]) + a0[args[1]:])
                 return UNIT
             if fname == "len":
                 return len(a0.encode("utf-8"))
